@@ -232,7 +232,8 @@ def rule_references_table(ctx: Ctx, rule: str) -> None:
         if g(DOT):
             return ('raise', 'DotException', ('rewind', 1))
         return (('escape', 'next(i)'), False)
-    ok, why, rows = compare_table(paths, ev.bitnames, oracle, proj, vocab, alias=char_alias(paths, 'next(i)'), where='_references')
+    ok, why, rows = compare_table(paths, ev.bitnames, oracle, proj, vocab, alias=char_alias(paths, 'next(i)'), where='_references',
+                                  exclusive=lambda a: 'c' if a.startswith('c=') else None)
     ctx.count('decision_table_rows', rows)
     ctx.ob(rule, f'{WP}:WcParse._references/table', ok, repo.loc(WP, fi.node), 'documented table (DESIGN appendix B)', f'{rows} rows agree' if ok else why[:300],
            witness="fnmatch('usr/bin', 'usr[\\\\\\\\]bin', flags=FORCEWIN) must be True: under FORCEWIN an escaped backslash is a separator, also inside brackets; "
@@ -258,7 +259,8 @@ def rule_references_table(ctx: Ctx, rule: str) -> None:
                     return ('raise', 'PathNameException')
                 return ('ret', '/') if not has_pathname else ('ret',)
             return ('ret', None) if not has_pathname else ('ret',)
-        ok2, why2, rows2 = compare_table(paths2, ev2.bitnames, oracle2, proj2, vocab, alias=char_alias(paths2, 'next(i)'), where=f'{cls}._references')
+        ok2, why2, rows2 = compare_table(paths2, ev2.bitnames, oracle2, proj2, vocab, alias=char_alias(paths2, 'next(i)'), where=f'{cls}._references',
+                                         exclusive=lambda a: 'c' if a.startswith('c=') else None)
         ctx.count('decision_table_rows', rows2)
         ctx.ob(rule, f'{mod}:{cls}._references/table', ok2, repo.loc(mod, f2.node),
                'raise PathNameException iff in a bracket and (`\\\\` with bslash_abort, or `\\/` ' + ('with pathname)' if has_pathname else 'always); returns the consumed separator'),
